@@ -34,7 +34,12 @@ def make_op(jwt_tokens=False, extra=None, user="diana", more_endpoints=None, key
         "refresh": {"lifetime": 86400, "kwargs": {"crypt_conf": {"kwargs": {"password": "2987654321abcdefghijklmnop...---", "salt": "abcdefghijklmnop", "iterations": 1}}}},
         "id_token": {"class": "idpyoidc.server.token.id_token.IDToken", "kwargs": {}},
     }
-    if jwt_tokens:
+    if jwt_tokens == "shared":
+        # one handler specification (the same dict object) used for the three classes, as a configuration written in Python may do
+        spec = {"lifetime": 3600, "aud": ["https://example.org/appl"]}
+        for k in ("code", "token", "refresh"):
+            tha[k] = {"class": "idpyoidc.server.token.jwt_token.JWTToken", "kwargs": spec}
+    elif jwt_tokens:
         tha["token"] = {"class": "idpyoidc.server.token.jwt_token.JWTToken", "kwargs": {"lifetime": 3600, "aud": ["https://example.org/appl"]}}
         tha["refresh"] = {"class": "idpyoidc.server.token.jwt_token.JWTToken", "kwargs": {"lifetime": 86400, "aud": ["https://example.org/appl"]}}
     if keys == "key":
